@@ -2048,7 +2048,11 @@ class TargetRegistry:
             if isinstance(obj, cur_type):
                 sub_type = self._get_closest_type(obj, type_tree=sub_tree)
                 ret = cur_type if sub_type is None else sub_type
-                return ret
+                # a subtype is filed under one of its registered parents
+                # only; keep looking, a sibling branch may hold a more
+                # specific match (first match wins among unrelated types)
+                if default is None or (ret is not default and issubclass(ret, default)):
+                    default = ret
         return default
 
     def _register_default_types(self):
